@@ -8,9 +8,13 @@ Model of the integration loop (starsim/loop.py, Module/Sim `finish_step`, Sim.ru
   of `time_eps`: times are `Int` in units of eps, the plan's sort key `time + eps*func_order` is `time + order`.
 * `cross` = the cross product (function x time point of the function's owner) in the order `make_plan` builds it,
   `makePlan` = that list sorted by the key.  The theorems are stated for *any* key-sorted permutation (`IsPlan`).
-* `trace` executes a plan with per-owner clocks: a `finish_step` of an owner increments the owner's `ti`.
-  `people.*` functions are scheduled on the sim's time vector (`abs_tvecs['people'] = sim.t.abstvec`) and read
-  the sim's clock; they are modelled as functions of owner 0 (the sim) that never increment.
+* `trace` executes a plan with per-owner clocks: a `finish_step` increments the `ti` of the object it is bound to.
+* every function has TWO owners: `owner` = the entry of `abs_tvecs` whose time vector schedules it — looked up by
+  NAME (`Loop.__iadd__`: `parent.name` for modules, the lower-cased class name for the sim and `people`), so two
+  modules with one name (in different containers), or a module named `people`, share the entry written last by
+  `collect_abs_tvecs` — and `clock` = the object whose `t.ti` it reads / increments (the module itself; the sim for
+  `sim.*` and `people.*`).  Owner indices: 0 = sim, i+1 = i-th module, `mods.length + 1` = `people` (own entry of
+  `abs_tvecs`, filled with the sim's time vector).
 
 Core Lean only: interpreted by Drivers/C08.lean and Drivers/C09.lean.
 -/
@@ -30,7 +34,11 @@ inductive Kind where
 structure Mod where
   kind : Kind
   isDisease : Bool
+  /-- identifies the module's `name`; 0 is reserved for `sim`, 1 for `people` -/
+  nameId : Nat
   deriving DecidableEq, Repr
+
+def dfltMod : Mod := ⟨.analyzers, false, 0⟩
 
 /-- `Sim.modules`: `itertools.chain(demographics, networks, diseases, connectors, interventions, products, analyzers)`. -/
 def chainOrder : List Kind :=
@@ -43,12 +51,12 @@ def Kind.name : Kind → String
 
 /-- Owner indices (position in `mods` + 1; owner 0 is the sim) of the modules of one container, in insertion order. -/
 def ofKind (mods : List Mod) (k : Kind) : List Nat :=
-  ((List.range mods.length).filter (fun i => (mods.getD i ⟨.analyzers, false⟩).kind == k)).map (· + 1)
+  ((List.range mods.length).filter (fun i => (mods.getD i dfltMod).kind == k)).map (· + 1)
 
 /-- Owner indices of `sim.modules` in chain order. -/
 def chain (mods : List Mod) : List Nat := chainOrder.flatMap (ofKind mods)
 
-def isDiseaseAt (mods : List Mod) (owner : Nat) : Bool := (mods.getD (owner - 1) ⟨.analyzers, false⟩).isDisease
+def isDiseaseAt (mods : List Mod) (owner : Nat) : Bool := (mods.getD (owner - 1) dfltMod).isDisease
 
 /-- What a container expression of `collect_funcs` denotes. `none` = not understood (the row contributes nothing
     and `C08_table_understood` fails). -/
@@ -68,23 +76,31 @@ def parseCont (s : String) : Option Cont :=
   else if s = "sim.analyzers()" then some (.kind .analyzers)
   else none
 
-/-- Guards understood: none, or the `isinstance(disease, ss.Disease)` filter. -/
+/-- Guards understood: none, or the `isinstance(<loop variable>, ss.Disease)` filter (the loop variable is
+    abstracted to `_` by the extractor). -/
 def parseGuard (s : String) : Option Bool :=
   if s = "" then some false
-  else if s = "isinstance(disease, ss.Disease)" then some true
+  else if s = "isinstance(_, ss.Disease)" ∨ s = "isinstance(disease, ss.Disease)" then some true
   else none
 
-/-- A function of the step before numbering: owner (0 = sim, also for `people.*`), whether it increments the
-    owner's clock, and the row of the table it came from. -/
+/-- The entry of `abs_tvecs` found under a name: `collect_abs_tvecs` writes `sim`, `people`, then every module in
+    `Sim.modules` order under its name, later writes replacing earlier ones.  `resolveIn l name dflt` = the last
+    (module owner, nameId) pair of `l` with that name, else `dflt`. -/
+def resolveIn (l : List (Nat × Nat)) (name : Nat) (dflt : Nat) : Nat :=
+  l.foldl (fun acc on => if on.2 = name then on.1 else acc) dflt
+
+/-- A function of the step before numbering: `owner` = whose time vector schedules it, `clock` = whose `ti` it
+    reads (and increments, if `finish`), and the row of the table it came from. -/
 structure RawFunc where
   owner : Nat
+  clock : Nat
   finish : Bool
   row : Nat
   deriving DecidableEq, Repr
 
 abbrev Row := String × String × String
 
-/-- Owners a row expands to, in order. -/
+/-- Clock owners a row expands to, in order. -/
 def rowOwners (mods : List Mod) (r : Row) : List Nat :=
   match parseCont r.1, parseGuard r.2.2 with
   | some .sim, some _ => [0]
@@ -93,11 +109,22 @@ def rowOwners (mods : List Mod) (r : Row) : List Nat :=
   | some (.kind k), some g => (ofKind mods k).filter (fun o => !g || isDiseaseAt mods o)
   | _, _ => []
 
+/-- (module owner, nameId) in the order `collect_abs_tvecs` writes them. -/
+def nameTable (mods : List Mod) : List (Nat × Nat) :=
+  (chain mods).map (fun o => (o, (mods.getD (o - 1) dfltMod).nameId))
+
+/-- The `abs_tvecs` entry that schedules a function bound to clock owner `o` of a row. -/
+def schedOwner (mods : List Mod) (r : Row) (o : Nat) : Nat :=
+  match parseCont r.1 with
+  | some .sim => resolveIn (nameTable mods) 0 0
+  | some .people => resolveIn (nameTable mods) 1 (mods.length + 1)
+  | _ => resolveIn (nameTable mods) (mods.getD (o - 1) dfltMod).nameId o
+
 /-- `finish_step` of the sim or of a module is `self.t.ti += 1`; `people.finish_step` has no clock. -/
 def rowFinish (r : Row) : Bool := r.2.1 == "finish_step" && parseCont r.1 != some .people
 
 def rowFuncs (mods : List Mod) (r : Row) (i : Nat) : List RawFunc :=
-  (rowOwners mods r).map (fun o => ⟨o, rowFinish r, i⟩)
+  (rowOwners mods r).map (fun o => ⟨schedOwner mods r o, o, rowFinish r, i⟩)
 
 def collectRaw (table : List Row) (mods : List Mod) : List RawFunc :=
   table.zipIdx.flatMap (fun ri => rowFuncs mods ri.1 ri.2)
@@ -105,6 +132,7 @@ def collectRaw (table : List Row) (mods : List Mod) : List RawFunc :=
 /-- A numbered function: `order` = `func_order`. -/
 structure Func where
   owner : Nat
+  clock : Nat
   finish : Bool
   order : Nat
   row : Nat
@@ -113,7 +141,7 @@ structure Func where
 /-- `Loop.__iadd__`: `func_order = len(self.funcs)` at the time of appending. -/
 def numberFrom (i : Nat) : List RawFunc → List Func
   | [] => []
-  | r :: rs => ⟨r.owner, r.finish, i, r.row⟩ :: numberFrom (i + 1) rs
+  | r :: rs => ⟨r.owner, r.clock, r.finish, i, r.row⟩ :: numberFrom (i + 1) rs
 
 /-- `Loop.collect_funcs` for the module set `mods`. -/
 def collect (table : List Row) (mods : List Mod) : List Func := numberFrom 0 (collectRaw table mods)
@@ -146,6 +174,25 @@ def phaseOf (r : Row) : Option Phase :=
   else if m = "finish_step" ∧ (c = "sim.modules" ∨ c = "sim.people" ∨ c = "sim") then some .endOfStep
   else none
 
+/-- The complete documented table (container, method, guard with the loop variable abstracted): any reordering,
+    insertion or removal of a row of `collect_funcs` changes the regenerated `Gen.loopRows` away from it. -/
+def documentedRows : List Row := [
+  ("sim", "start_step", ""),
+  ("sim.modules", "start_step", ""),
+  ("sim.demographics()", "step", ""),
+  ("sim.diseases()", "step_state", "isinstance(_, ss.Disease)"),
+  ("sim.connectors()", "step", ""),
+  ("sim.networks()", "step", ""),
+  ("sim.interventions()", "step", ""),
+  ("sim.diseases()", "step", ""),
+  ("sim.people", "step_die", ""),
+  ("sim.people", "update_results", ""),
+  ("sim.modules", "update_results", ""),
+  ("sim.analyzers()", "step", ""),
+  ("sim.modules", "finish_step", ""),
+  ("sim.people", "finish_step", ""),
+  ("sim", "finish_step", "")]
+
 /-- Remove adjacent repetitions. -/
 def compress {α} [DecidableEq α] : List α → List α
   | [] => []
@@ -160,6 +207,7 @@ structure Entry where
   time : Int
   order : Nat
   owner : Nat
+  clock : Nat
   finish : Bool
   k : Nat
   row : Nat
@@ -181,7 +229,7 @@ def Times.ofArrays (a : Array (Array Int)) : Times :=
   { npts := fun m => (a.getD m #[]).size, tv := fun m k => (a.getD m #[]).getD k 0 }
 
 def block (T : Times) (f : Func) : List Entry :=
-  (List.range (T.npts f.owner)).map (fun k => ⟨T.tv f.owner k, f.order, f.owner, f.finish, k, f.row⟩)
+  (List.range (T.npts f.owner)).map (fun k => ⟨T.tv f.owner k, f.order, f.owner, f.clock, f.finish, k, f.row⟩)
 
 /-- `make_plan`'s `raw`: for every function, for every time point of its owner. -/
 def cross (T : Times) (fl : List Func) : List Entry := fl.flatMap (block T)
@@ -221,12 +269,12 @@ def incr : Clocks → Nat → Clocks
   | x :: r, 0 => (x + 1) :: r
   | x :: r, m + 1 => x :: incr r m
 
-def bump (clk : Clocks) (e : Entry) : Clocks := if e.finish then incr clk e.owner else clk
+def bump (clk : Clocks) (e : Entry) : Clocks := if e.finish then incr clk e.clock else clk
 
 /-- Execute the plan; record, for every entry, the owner's clock at the invocation. -/
 def trace (clk : Clocks) : List Entry → List (Entry × Nat)
   | [] => []
-  | e :: r => (e, getClk clk e.owner) :: trace (bump clk e) r
+  | e :: r => (e, getClk clk e.clock) :: trace (bump clk e) r
 
 /-- The clocks after executing the plan. -/
 def finalClocks (clk : Clocks) : List Entry → Clocks
@@ -251,8 +299,21 @@ def Separated (T : Times) (fl : List Func) (n : Nat) : Prop :=
 def Ordered (fl : List Func) (n : Nat) : Prop :=
   fl.Pairwise (fun a b => a.order < b.order) ∧ ∀ f ∈ fl, f.order < n
 
-/-- A clock-incrementing function of an owner is never followed by another function of the same owner. -/
-def FinishLast (fl : List Func) : Prop := fl.Pairwise (fun a b => a.owner = b.owner → a.finish = false)
+/-- A clock-incrementing function is never followed by another function reading the same clock. -/
+def FinishLast (fl : List Func) : Prop := fl.Pairwise (fun a b => a.clock = b.clock → a.finish = false)
+
+/-- Every function is scheduled on a time vector equal to that of the object whose clock it reads (its own entry of
+    `abs_tvecs`, or — for `people.*` — an entry holding the sim's vector). Fails when module names collide. -/
+def Aligned (T : Times) (fl : List Func) : Prop :=
+  ∀ f ∈ fl, T.npts f.owner = T.npts f.clock ∧ ∀ k, k < T.npts f.owner → T.tv f.owner k = T.tv f.clock k
+
+/-- Module names are pairwise different and none is `sim` (0) or `people` (1). -/
+def NamesDistinct (mods : List Mod) : Prop :=
+  (mods.map (·.nameId)).Pairwise (· ≠ ·) ∧ ∀ m ∈ mods, 2 ≤ m.nameId
+
+def alignedB (T : Times) (fl : List Func) : Bool :=
+  fl.all (fun f => T.npts f.owner == T.npts f.clock &&
+    (List.range (T.npts f.owner)).all (fun k => T.tv f.owner k == T.tv f.clock k))
 
 /-! ### Executable versions (driver / `decide`) -/
 
